@@ -273,7 +273,15 @@ func c07Final(h *H, spec Spec, wd c07World) []string {
 func c07Report(r *vt.Run, c c07Case) []sim.Point {
 	pts, desc, found := c07Run(r, c)
 	for _, v := range found {
-		r.Violate(v.clause+"/"+c.W.Kind+"/"+desc, v.detail+"; case "+c.String(), c)
+		shape := ""
+		if c.W.N != 3 || c.W.Cascade {
+			shape = fmt.Sprintf("[%d-nodes", c.W.N)
+			if c.W.Cascade {
+				shape += "+cascade"
+			}
+			shape += "]"
+		}
+		r.Violate(v.clause+"/"+c.W.Kind+shape+"/"+desc, v.detail+"; case "+c.String(), c)
 	}
 	if c.Dev != nil {
 		r.Nontrivial(c.String())
